@@ -330,8 +330,19 @@ def run_check(pid, rule_fn, argv):
     except BrokenPipeError:
         rc = 2
     except AnalysisBroken as e:
-        print("ANALYSIS-BROKEN property=%s: %s" % (pid, e))
+        # part of the analysis could not be completed.  Violations established before that point (each with its own witness) stand and
+        # are reported; otherwise the run is undecided.
+        established = [o for o in chk.obligations if o["status"] == REFUTED]
         rc = 2
+        if established:
+            try:
+                chk.notes.append("the analysis stopped early: %s" % e)
+                rc = chk.finish()
+            except AnalysisBroken:
+                rc = 2
+        if rc != 1:
+            print("ANALYSIS-BROKEN property=%s: %s" % (pid, e))
+            rc = 2
     except Exception:
         import traceback
         traceback.print_exc()
